@@ -38,9 +38,10 @@ class Config(Bunch, metaclass=NamespaceableMeta):
         if not isinstance(config_dict, ConfigDict):
             config_dict = ConfigDict(config_dict)
 
+        self._source = config_dict
+        self._user_data = None
         if config_dict:
             Config.check_missing(config_dict)
-            self._source = config_dict
             pre_evaluate = copy.deepcopy(config_dict)
             if eval_ctx is None:
                 eval_ctx = EvalContext()
